@@ -6,7 +6,7 @@ CONSTANTS
   Libs = {"L1", "L2"}
   NH = 4
   MaxInst = 3
-INVARIANTS MappedWhileHeld ClosedOnce ClosedWhenUnheld
+INVARIANTS MappedWhileHeld ClosedOnce ClosedWhenUnheld ResolvedWhereAsked
 PROPERTY FailuresChangeNothing
 ACTION_CONSTRAINT EmitEdge
 VIEW View
